@@ -182,6 +182,8 @@ class Gen:
         op = {"op": "new", "out": out, "sig": sig, "lead": lead, "spatial": spatial, "is_torus": it, "vseed": rng.getrandbits(24), "how": how}
         if rng.random() < 0.07:
             op["dtype"] = "int32"  # integer-valued blocks stored as integers: arithmetic must promote, never truncate
+        if how == "from_images" and rng.random() < 0.35:
+            op["images_lead2_axis"] = rng.choice([0, 1])  # from_images(images, n_lead_axes=2, axis=...)
         if how == "from_images":
             seq = [(i, c) for i, (_, _, cc) in enumerate(sig) for c in range(cc)]
             # interleave images of different types; channel order inside a type is kept
@@ -457,7 +459,7 @@ class Gen:
         self.emit({"op": "get_subset", "a": a, "idxs": idxs, "out": self.fresh()})
 
     def g_get_one(self):
-        a = self.pick(lambda r: len(r.blocks) >= 1 and r.n_lead() >= 2)
+        a = self.pick(lambda r: len(r.blocks) >= 1 and r.n_lead() >= 1)
         if a is None:
             return
         r = self.refs[a]
@@ -614,6 +616,10 @@ def _apply_ref(op: dict, refs: dict, D: int) -> bool:
             order = op.get("image_order", [])
             if sorted(order) != sorted(i for i, (_, _, c) in enumerate(op["sig"]) for _ in range(c)):
                 return False
+            ax2 = op.get("images_lead2_axis")
+            if ax2 is not None:
+                # every image becomes a (1,1,...) block, appended along `axis`: (c,1,...) or (1,c,...)
+                blocks = {t: (v[:, None] if ax2 == 0 else v[None]) for t, v in blocks.items()}
         refs[op["out"]] = RefMI(blocks, D, tuple(op["is_torus"]))
         return True
     if o == "new_shaped":
@@ -893,6 +899,8 @@ def _build_new(op: dict, D: int):
             (k, p), v = blocks[i]
             images.append(geom.GeometricImage(v[cursors[i]], p, D, is_torus))
             cursors[i] += 1
+        if op.get("images_lead2_axis") is not None:
+            return geom.MultiImage.from_images(images, n_lead_axes=2, axis=op["images_lead2_axis"])
         return geom.MultiImage.from_images(images)
     raise ValueError(how)
 
